@@ -306,6 +306,14 @@ func TestVerifC19SnapshotVsDelete(t *testing.T) {
 		batch := rapid.IntRange(1, 20).Draw(rt, "batch")
 		snapshotters := rapid.IntRange(1, 2).Draw(rt, "snapshotters")
 		deleters := rapid.IntRange(1, 4).Draw(rt, "deleters")
+		wide := 0
+		if rapid.IntRange(0, 2).Draw(rt, "wideBatch") == 0 {
+			wide = rapid.IntRange(200, 1500).Draw(rt, "wide")
+			if rounds > 15 {
+				rounds = 15
+			}
+		}
+		var wideAcked int64
 		var wg sync.WaitGroup
 		var failMu sync.Mutex
 		var failure string
@@ -329,11 +337,17 @@ func TestVerifC19SnapshotVsDelete(t *testing.T) {
 					pts = append(pts, vPt{M: "m0", Tags: map[string]string{"host": "keep"}, Fields: map[string]vVal{"f0": vF(float64(n0 + int64(k)))}, TS: n0 + int64(k)}.point())
 					pts = append(pts, vPt{M: "m1", Tags: map[string]string{"host": fmt.Sprintf("v%d", k%3)}, Fields: map[string]vVal{"f0": vF(1)}, TS: n0 + int64(k)}.point())
 				}
+				// a wide batch: many series and fields in ONE write call, so that a snapshot can fall between
+				// two keys of the same batch
+				for w := 0; w < wide; w++ {
+					pts = append(pts, vPt{M: "m4", Tags: map[string]string{"host": fmt.Sprintf("w%d", w)}, Fields: map[string]vVal{"f0": vF(float64(r)), "f1": vI(int64(r)), "f2": vB(true)}, TS: int64(r)}.point())
+				}
 				if err := b.store.WriteToShard(1, pts); err != nil {
 					fail("write: " + err.Error())
 					return
 				}
 				atomic.StoreInt64(&acked, n0+int64(batch))
+				atomic.AddInt64(&wideAcked, 1)
 			}
 		}()
 		for sn := 0; sn < snapshotters; sn++ {
@@ -400,7 +414,18 @@ func TestVerifC19SnapshotVsDelete(t *testing.T) {
 				rt.Fatalf("%s point ts=%d of the kept series was acknowledged and is not readable after %d rounds of concurrent snapshots and deletes of another measurement (%d of %d present)", verifkit.Sig("acknowledged-write-lost"), ts, rounds, len(rows), acked)
 			}
 		}
-		stats.Case(rounds >= 20, fmt.Sprint(rounds, batch, snapshotters, deleters), fmt.Sprintf("rounds>=20:%v", rounds >= 20))
+		if wide > 0 {
+			for _, f := range []string{"f0", "f1", "f2"} {
+				rows, err := b.readField(1, "m4", f, true, influxql.MinTime, influxql.MaxTime, "")
+				if err != nil {
+					rt.Fatalf("%s %v", verifkit.Sig("concurrent-read-error"), err)
+				}
+				if want := int(wideAcked) * wide; len(rows) != want {
+					rt.Fatalf("%s %d write calls of %d series x 3 fields were acknowledged while cache snapshots and deletes of another measurement ran, but field %s of m4 returns %d of %d values", verifkit.Sig("acknowledged-write-lost"), wideAcked, wide, f, len(rows), want)
+				}
+			}
+		}
+		stats.Case(rounds >= 20 || wide > 0, fmt.Sprint(rounds, batch, snapshotters, deleters, wide), fmt.Sprintf("wideBatch:%v", wide > 0), fmt.Sprintf("rounds>=20:%v", rounds >= 20))
 		if stats.WantSample() {
 			stats.Sample(map[string]interface{}{"rounds": rounds, "batch": batch, "acked_points": acked})
 		} else {
